@@ -112,6 +112,18 @@ def reconstruct(repo, out_dir, decoy=False):
         '\t\t\t1:00\tVerifA\tX%sT',
         'Zone\tVerif/PolicyE\t2:00\tVerifE\tE%sT',
     ]
+    # eras that end part-way through a month (in particular December: the era still matches the first days of the
+    # following year) followed by an era with a DST policy - the shapes that decide how many transition slots a
+    # year needs (C09 third sentence, compiler-generated zones)
+    for mon, day, hh in (('Dec', 15, '0:00'), ('Dec', 31, '23:00'), ('Jan', 2, '0:00'), ('Jun', 15, '12:00'),
+                         ('Mar', 28, '2:00'), ('Oct', 31, '1:00'), ('Nov', 1, '0:00')):
+        zones += [
+            'Zone\tVerif/End%s%d\t3:00\t-\t+03\t2010\t%s\t%d\t%s' % (mon, day, mon, day, hh),
+            '\t\t\t3:00\tVerifA\tE%sT',
+            'Zone\tVerif/Two%s%d\t2:00\tVerifD\tF%%sT\t2010\t%s\t%d\t%s' % (mon, day, mon, day, hh),
+            '\t\t\t3:00\tVerifA\tG%sT\t2011\tDec\t20',
+            '\t\t\t2:00\tVerifD\tF%sT',
+        ]
     links += ['Link\tVerif/Twin1\tVerif/Alias1', 'Link\tVerif/Twin1\tVerif/Alias2', 'Link\tVerif/Multi\tVerif/AliasM',
               'Link\tVerif/Nowhere\tVerif/Dangling']
     if decoy:
